@@ -4,6 +4,7 @@ package props
 import (
 	"fmt"
 	"io"
+	"os"
 	"runtime"
 	"strings"
 
@@ -20,6 +21,18 @@ import (
 // Init registers all checks.
 func Init() {
 	verifrt.Enable(true)
+	if dir := os.Getenv("MC_COVER_DIR"); dir != "" && verifrt.NumHits > 0 {
+		// coverage build (instr -cover): every worker dumps the blocks of the library it entered
+		engine.AtWorkerExit = func() {
+			var sb strings.Builder
+			for i := 0; i < verifrt.NumHits; i++ {
+				if verifrt.Hits[i] != 0 {
+					fmt.Fprintf(&sb, "%d\n", i)
+				}
+			}
+			os.WriteFile(fmt.Sprintf("%s/hits.%d", dir, os.Getpid()), []byte(sb.String()), 0o644)
+		}
+	}
 	for _, f := range inits {
 		f()
 	}
